@@ -2,12 +2,16 @@
 import json
 from . import common
 
-LEAN_TARGETS = ["TsrunVerif.Props.C08"]
+LEAN_TARGETS = ["TsrunVerif.Props.C08", "TsrunVerif.Props.C08Comb"]
 P = "TsrunVerif.Orders."
 THEOREMS = [P + t for t in [
     "inv_init", "inv_step", "nextId_mono", "reported_increasing", "order_once", "issued_reported_next",
-    "issue_then_report", "cancel_once", "report_drains"]]
+    "issue_then_report", "cancel_once", "report_drains"]] + ["TsrunVerif.Comb." + t for t in [
+    "runF_spec", "all_fulfilled_any_order", "all_rejected_first", "allRun_settled", "allSettled_waits", "allSettled_not_pending",
+    "any_first_fulfilled", "any_all_rejected", "lookupF_perm", "all_order_independent"]]
 ASSUMPTIONS = [
+    "M-Comb models Promise.all / allSettled / any / race as bookkeeping over the order in which the inputs settle (each input settles once); handlers, thenables and "
+    "non-promise inputs are outside it; it is compared with tsrun and the reference engine after every settlement of generated orders (complete and incomplete)",
     "M-Orders models the host-visible ledger (next_order_id, pending_orders, cancelled_orders and their mem::take in every Suspended result); the script and the promise "
     "machinery are abstracted to the ledger events they cause. The event sequence of every generated run is reconstructed from the script's own markers and the host's actions "
     "and replayed through the model; its reports must equal the Suspended lists of the real interpreter",
@@ -74,7 +78,50 @@ def expected_out(script_markers, resp_by_id, settle_map):
     return None
 
 
+def part_comb(ctx):
+    """CORR / PROP: the combinators' result after every settlement == M-Comb (== reference engine)"""
+    import shutil, subprocess
+    from . import c08_comb
+    rng = ctx.rng
+    cases = [c08_comb.gen_case(rng) for _ in range(300 if ctx.tier == "quick" else 5000)]
+    mls, spans = [], []
+    for c in cases:
+        ml = c08_comb.model_lines(*c)
+        spans.append(len(ml))
+        mls += ml
+    mo = common.driver(["comb"], mls)
+    exp, k = [], 0
+    for sp in spans:
+        exp.append("|".join(mo[k:k + sp]))
+        k += sp
+    progs = [c08_comb.render(*c) for c in cases]
+    got = common.harness(["prog"], [p.replace("\n", "\\n") for p in progs], timeout=600)
+    node = shutil.which("node")
+    refv = [None] * len(cases)
+    if node:
+        src = "const out=[];\n" + "\n".join("out.push(await (async()=>{%s})().catch(e=>'E:'+e));" % p.replace("seen.join('|')", "return seen.join('|')") for p in progs) + "\nconsole.log(JSON.stringify(out))"
+        try:
+            pr = subprocess.run([node, "--input-type=module", "-e", src], capture_output=True, text=True, timeout=600)
+            refv = json.loads(pr.stdout)
+        except (OSError, ValueError, subprocess.TimeoutExpired):
+            refv = [None] * len(cases)
+    kinds = {}
+    for c, e, g, r, p in zip(cases, exp, got, refv, progs):
+        ctx.cov["evaluations"] += 1
+        ctx.cov["traces_validated_against_impl"] += 1
+        kinds[c[0]] = kinds.get(c[0], 0) + 1
+        if "bad-case" in e:
+            ctx.corr_fail("M-Comb driver rejected a generated case", str(c), e, g[:100])
+        elif r is not None and r != e:
+            ctx.corr_fail("M-Comb differs from the reference engine (the model is wrong)", {"case": str(c), "program": p[:800]}, e, str(r)[:200])
+        elif not g.startswith("OK s:" + e + " "):
+            ctx.prop_fail("combinator: Promise.%s over hand-settled promises differs from M-Comb (and the reference engine): the result after each settlement should be %s" % (c[0], e[:120]),
+                          {"program": p[:1500], "impl": g[:300], "model": e[:300], "inputs": c[1], "settlements": ["%s%d:%d" % x for x in c[2]]})
+    ctx.notes.append("combinators: %d cases %s (result observed after every settlement)" % (len(cases), json.dumps(kinds, sort_keys=True)))
+
+
 def run(ctx):
+    part_comb(ctx)
     rng = ctx.rng
     cases = []
     n = 700 if ctx.tier == "quick" else 12000
